@@ -249,15 +249,73 @@ theorem typedCall_all_c {β : Type} (e : Engine) (args : List Layout) (r : β)
   · rfl
   · exact typedCall_jit_ok args r h
 
-theorem query_ok (e : Engine) (K : Kernels α) (hK : HillClimbTotal K) :
+/-- **relativised totality.**  `P vs cn sc i` singles out the mesh data (vertex array,
+`connections`, shortcuts) and start indices the statement is about; on those the hill climb
+returns an index into the vertex array that again satisfies `P` (so the cached start index of
+the next call is covered too).  `HillClimbTotal` is the instance `P := fun vs _ _ _ => 0 < vs.size`
+(`hillClimbTotalOn_of_total`); C03 proves the instance "well-formed data, valid start" for the
+modelled `hill_climb_mesh_extreme` (D3/Proofs/ColliderStateLink.lean). -/
+def HillClimbTotalOn (K : Kernels α)
+    (P : Array (V3 α) → List (Nat × List Nat) → List Nat → Nat → Prop) : Prop :=
+  ∀ d i (vs : Array (V3 α)) cn sc, P vs cn sc i →
+    ∃ k, K.hillClimb d i vs cn sc = some k ∧ k < vs.size ∧ P vs cn sc k
+
+/-- `i` is an acceptable (`P`) start index for the mesh data the constructor of `shape` stores
+(`vertices`, `K.connections triangles`, `K.shortcuts vertices`); no condition for a shape
+without a mesh -/
+def Shape.StartOk (K : Kernels α)
+    (P : Array (V3 α) → List (Nat × List Nat) → List Nat → Nat → Prop) : Shape α → Nat → Prop
+  | .mesh verts tris, i => P verts (K.connections tris) (K.shortcuts verts) i
+  | .margin s _, i => s.StartOk K P i
+  | _, _ => True
+
+theorem hillClimbTotalOn_of_total (K : Kernels α) (hK : HillClimbTotal K) :
+    HillClimbTotalOn K (fun vs _ _ _ => 0 < vs.size) := by
+  intro d i vs cn sc h
+  obtain ⟨k, hk, hlt⟩ := hK d i vs cn sc h
+  exact ⟨k, hk, hlt, h⟩
+
+/-- a successfully constructed mesh has a vertex -/
+theorem startOk_size_of_atPose (e : Engine) (K : Kernels α) :
+    ∀ (shape : Shape α) (p : Arr (M4 α)) (f : Collider α) (i : Nat),
+      atPose e K shape p = .ok f → shape.StartOk K (fun vs _ _ _ => 0 < vs.size) i := by
+  intro shape
+  induction shape with
+  | margin s m ih =>
+    intro p f i hf
+    simp only [atPose, bind, Except.bind] at hf
+    split at hf
+    · cases hf
+    · rename_i c hc
+      exact ih p c i hc
+  | mesh verts tris =>
+    intro p f i hf
+    simp only [atPose, bind, Except.bind] at hf
+    split at hf
+    · cases hf
+    · split at hf
+      · cases hf
+      · rename_i hne
+        simp only [Shape.StartOk]
+        rcases Nat.eq_zero_or_pos verts.size with h | h
+        · exact absurd (by simpa [Array.isEmpty] using h) hne
+        · exact h
+  | _ => intro p f i _; trivial
+
+/-- `query_ok` relativised: the hill climb needs to be total only on the data/start indices
+`P`, provided the current start index `i` is acceptable for the shape's own mesh data -/
+theorem query_ok_on (e : Engine) (K : Kernels α)
+    (P : Array (V3 α) → List (Nat × List Nat) → List Nat → Nat → Prop)
+    (hK : HillClimbTotalOn K P) :
     ∀ (shape : Shape α) (p : Arr (M4 α)) (f : Collider α) (i : Nat) (q : Query α),
       shape.contigParams = true → p.layout = .c → atPose e K shape p = .ok f →
+      shape.StartOk K P i →
       (∀ d, q = .support d → d.layout = .c) →
       ∃ o, ((f.setFirstIdx i).query e K q).2 = .ok o := by
   intro shape
   induction shape with
   | margin s m ih =>
-    intro p f i q hs hp hf hq
+    intro p f i q hs hp hf hi hq
     simp only [atPose, bind, Except.bind] at hf
     split at hf
     · cases hf
@@ -265,7 +323,8 @@ theorem query_ok (e : Engine) (K : Kernels α) (hK : HillClimbTotal K) :
       simp only [pure, Except.pure] at hf
       injection hf with hf; subst hf
       simp only [Shape.contigParams] at hs
-      have hin := fun q' hq' => ih p c i q' hs hp hc hq'
+      simp only [Shape.StartOk] at hi
+      have hin := fun q' hq' => ih p c i q' hs hp hc hi hq'
       cases q with
       | support d =>
         have hd := hq d rfl
@@ -369,7 +428,7 @@ theorem query_ok (e : Engine) (K : Kernels α) (hK : HillClimbTotal K) :
         obtain ⟨o, ho⟩ := hin .collider2origin (fun d' h' => by cases h')
         exact ⟨o, by simpa only [Collider.setFirstIdx, Collider.query] using ho⟩
   | box size =>
-    intro p f i q hs hp hf hq
+    intro p f i q hs hp hf hi hq
     simp only [atPose, bind, Except.bind] at hf
     split at hf
     · cases hf
@@ -390,7 +449,7 @@ theorem query_ok (e : Engine) (K : Kernels α) (hK : HillClimbTotal K) :
         exact ⟨_, rfl⟩
       | collider2origin => exact ⟨_, rfl⟩
   | mesh verts tris =>
-    intro p f i q hs hp hf hq
+    intro p f i q hs hp hf hi hq
     simp only [atPose, bind, Except.bind] at hf
     split at hf
     · cases hf
@@ -406,7 +465,7 @@ theorem query_ok (e : Engine) (K : Kernels α) (hK : HillClimbTotal K) :
         cases q with
         | support d =>
           simp only [Collider.setFirstIdx, Collider.query, MeshC.support]
-          obtain ⟨k, hk, hlt⟩ := hK (p.val.P.R.tmulVec d.val) i verts (K.connections tris) (K.shortcuts verts) h0
+          obtain ⟨k, hk, hlt, _⟩ := hK (p.val.P.R.tmulVec d.val) i verts (K.connections tris) (K.shortcuts verts) hi
           simp only [hk]
           have : verts[k]? = some verts[k] := Array.getElem?_eq_getElem hlt
           simp only [this]
@@ -418,7 +477,7 @@ theorem query_ok (e : Engine) (K : Kernels α) (hK : HillClimbTotal K) :
           exact ⟨_, rfl⟩
         | _ => exact ⟨_, rfl⟩
   | sphere r =>
-    intro p f i q hs hp hf hq
+    intro p f i q hs hp hf hi hq
     simp only [atPose, pure, Except.pure] at hf
     injection hf with hf; subst hf
     cases q with
@@ -429,7 +488,7 @@ theorem query_ok (e : Engine) (K : Kernels α) (hK : HillClimbTotal K) :
       exact ⟨_, rfl⟩
     | _ => exact ⟨_, rfl⟩
   | capsule r hh =>
-    intro p f i q hs hp hf hq
+    intro p f i q hs hp hf hi hq
     simp only [atPose, pure, Except.pure] at hf
     injection hf with hf; subst hf
     cases q with
@@ -440,7 +499,7 @@ theorem query_ok (e : Engine) (K : Kernels α) (hK : HillClimbTotal K) :
       exact ⟨_, rfl⟩
     | _ => exact ⟨_, rfl⟩
   | ellipsoid radii =>
-    intro p f i q hs hp hf hq
+    intro p f i q hs hp hf hi hq
     simp only [atPose, pure, Except.pure] at hf
     injection hf with hf; subst hf
     have hr : radii.layout = .c := by simpa [Shape.contigParams] using hs
@@ -452,7 +511,7 @@ theorem query_ok (e : Engine) (K : Kernels α) (hK : HillClimbTotal K) :
       exact ⟨_, rfl⟩
     | _ => exact ⟨_, rfl⟩
   | cylinder r l =>
-    intro p f i q hs hp hf hq
+    intro p f i q hs hp hf hi hq
     simp only [atPose, pure, Except.pure] at hf
     injection hf with hf; subst hf
     cases q with
@@ -463,7 +522,7 @@ theorem query_ok (e : Engine) (K : Kernels α) (hK : HillClimbTotal K) :
       exact ⟨_, rfl⟩
     | _ => exact ⟨_, rfl⟩
   | disk r =>
-    intro p f i q hs hp hf hq
+    intro p f i q hs hp hf hi hq
     simp only [atPose, pure, Except.pure] at hf
     injection hf with hf; subst hf
     cases q with
@@ -482,7 +541,7 @@ theorem query_ok (e : Engine) (K : Kernels α) (hK : HillClimbTotal K) :
       exact ⟨_, rfl⟩
     | _ => exact ⟨_, rfl⟩
   | ellipse radii =>
-    intro p f i q hs hp hf hq
+    intro p f i q hs hp hf hi hq
     simp only [atPose, pure, Except.pure] at hf
     injection hf with hf; subst hf
     have hr : radii.layout = .c := by simpa [Shape.contigParams] using hs
@@ -494,7 +553,7 @@ theorem query_ok (e : Engine) (K : Kernels α) (hK : HillClimbTotal K) :
       exact ⟨_, rfl⟩
     | _ => exact ⟨_, rfl⟩
   | cone r hh =>
-    intro p f i q hs hp hf hq
+    intro p f i q hs hp hf hi hq
     simp only [atPose, pure, Except.pure] at hf
     injection hf with hf; subst hf
     cases q with
@@ -504,6 +563,15 @@ theorem query_ok (e : Engine) (K : Kernels α) (hK : HillClimbTotal K) :
       rw [typedCall_all_c _ _ _ (by intro l hl; simp at hl; rcases hl with rfl | rfl <;> assumption)]
       exact ⟨_, rfl⟩
     | _ => exact ⟨_, rfl⟩
+
+theorem query_ok (e : Engine) (K : Kernels α) (hK : HillClimbTotal K) :
+    ∀ (shape : Shape α) (p : Arr (M4 α)) (f : Collider α) (i : Nat) (q : Query α),
+      shape.contigParams = true → p.layout = .c → atPose e K shape p = .ok f →
+      (∀ d, q = .support d → d.layout = .c) →
+      ∃ o, ((f.setFirstIdx i).query e K q).2 = .ok o :=
+  fun shape p f i q hs hp hf hq =>
+    query_ok_on e K _ (hillClimbTotalOn_of_total K hK) shape p f i q hs hp hf
+      (startOk_size_of_atPose e K shape p f i hf) hq
 
 /-- the fresh-construction semantics raises nothing on contiguous input -/
 theorem runFresh_ok (e : Engine) (K : Kernels α) (hK : HillClimbTotal K) (shape : Shape α)
